@@ -152,7 +152,12 @@ func ReadEnvFile(filename string) (map[string]string, error) {
 	envs := make(map[string]string)
 	envscanner := bufio.NewScanner(f)
 	for envscanner.Scan() {
-		kv := strings.Split(envscanner.Text(), "=")
+		// NAME=value; the value may contain further '=' characters.
+		// Lines without '=' (blank lines, comments) define nothing
+		kv := strings.SplitN(envscanner.Text(), "=", 2)
+		if len(kv) != 2 {
+			continue
+		}
 		envs[kv[0]] = kv[1]
 	}
 
